@@ -42,6 +42,8 @@ class Gen:
         self.views_used = []
         self.targets = set()
         self.meta = []          # per statement: (kind, rank, dims)
+        self.pref_dep = []      # views to be used as dependents / independents of the case's Jacobian (s_packed)
+        self.pref_indep = []
 
     def h(self):
         self.nxt += 1
@@ -360,6 +362,43 @@ class Gen:
         else:
             self.emit("n1 %d %d %d %d" % (t, a, self.operand(d, reuse=0), a), "overlap-nested", d, t)
 
+    def s_packed(self):
+        """rank-2/3 views in which each dimension independently is the whole root extent, a leading/trailing part of it,
+        strided or reversed — the patterns that decide "is this view one linear run of memory / of gradient indices?"
+        (Array::push_gradient_indices, is_contiguous-style fast paths).  Target and operand are registered as preferred
+        dependents / independents of the case's Jacobian, so Stack::independent(view) and dependent(view) are exercised."""
+        r = self.r
+        rank = r.choice([2, 3, 3])
+        d = [r.choice([1, 2, 2, 3]) for _ in range(rank)]
+
+        def embed():
+            rootd, spec = [], []
+            for n in d:
+                mode = r.choice(["full", "full", "full", "head", "tail", "stride2", "rev"])
+                pad = r.randint(1, 2)
+                if mode == "full":
+                    rootd.append(n); spec.append("s0:%d:1" % (n - 1))
+                elif mode == "head":
+                    rootd.append(n + pad); spec.append("s0:%d:1" % (n - 1))
+                elif mode == "tail":
+                    rootd.append(n + pad); spec.append("s%d:%d:1" % (pad, pad + n - 1))
+                elif mode == "stride2":
+                    rootd.append(2 * n - 1 + (pad - 1)); spec.append("s0:%d:2" % (2 * (n - 1)))
+                else:
+                    rootd.append(n); spec.append("s%d:0:-1" % (n - 1))
+            root = self.root(rootd, True, "distinct")
+            return self.derive(root, "vw %(h)d %(src)d " + " ".join(spec), d, "stride")
+        t = embed(); a = embed()
+        self.targets.add(t)
+        self.pref_dep.append(t); self.pref_indep.append(a)
+        k = r.choice(["copy", "binsl", "bin"])
+        if k == "copy":
+            self.emit("copy %d %d" % (t, a), "packed-copy", d, t)
+        elif k == "binsl":
+            self.emit("binsl mul %d %d %d" % (t, r.choice([-3, 2, 3]), a), "packed-scalar-mul", d, t)
+        else:
+            self.emit("bin %s %d %d %d" % (r.choice(["add", "mul"]), t, a, self.operand(d, reuse=0)), "packed-bin", d, t)
+
     def s_where(self):
         d = self.rankdims((1, 1, 2, 2)); t = self.target(d); r = self.r
         troot = self.info[t]["root"]
@@ -556,11 +595,18 @@ class Gen:
         size = lambda h: max(1, eval("*".join(map(str, self.info[h]["dims"])) or "1"))
         self.r.shuffle(roots)
         indep, n = [], 0
+        # views as independents: only if nothing writes to their root (every cell is still an input), one view per root
+        troots = set(self.info[t]["root"] for t in self.targets)
+        for h in self.pref_indep:
+            rt = self.info[h]["root"]
+            if rt not in troots and rt in roots and n + size(h) <= 60 and len(indep) < 2:
+                indep.append(h); n += size(h); roots.remove(rt)
         for h in roots:
             if n + size(h) <= 60 and len(indep) < 4:
                 indep.append(h); n += size(h)
         deps, m = [], 0
         tl = sorted(self.targets); self.r.shuffle(tl)
+        tl = [h for h in self.pref_dep if h in self.targets] + [h for h in tl if h not in self.pref_dep]
         for h in tl:
             if m + size(h) <= 60 and len(deps) < 4:
                 deps.append(h); m += size(h)
@@ -575,7 +621,7 @@ class Gen:
 STMT_TABLE = {
     "default": [("copy", 4), ("neg", 2), ("bin", 9), ("bins", 5), ("bina", 4), ("nested", 6), ("wrap", 6), ("bcast", 5),
                 ("passive", 4), ("compound", 8), ("where", 8), ("indexed", 9), ("reduce", 8), ("rdim", 7), ("products", 5),
-                ("element", 5), ("float", 2), ("fixed", 5), ("overlap", 9)],
+                ("element", 5), ("float", 2), ("fixed", 5), ("overlap", 9), ("packed", 6)],
     "fixed-indexed": [("indexed", 10), ("fixed", 8), ("where", 3), ("compound", 2), ("bin", 2), ("rdim", 2), ("reduce", 2)],
 }
 
